@@ -504,6 +504,28 @@ Fixpoint effect_calls (j : N) (ops : list (list psend)) (obs : list eobs) : list
 Definition effect_hist (ops : list (list psend)) (obs : list eobs) (plog : list prec) : hist :=
   Hist true (effect_calls 0 ops obs) (effect_sends 0 ops obs) [(0, plog)].
 
+(* ---- kind "idle": channelWriter.idleExpired on scripted writer states ------------------------- *)
+
+Record idle_row := IdleRow {
+  ir_inbox : N; ir_pending : N; ir_inflight : N; ir_ready : bool; ir_completed : N;
+  ir_scheduled : bool; ir_limit : Z; ir_idle_at : Z; ir_now : Z; ir_retention : Z;
+  ir_expired : bool }.   (* what idleExpired answered *)
+
+Definition row_writer (r : idle_row) : swriter :=
+  SW (ir_scheduled r) (ir_idle_at r)
+     (repeat [] (N.to_nat (ir_inbox r)))
+     (WS 0 (ir_limit r) (repeat dflt_psend (N.to_nat (ir_pending r))) (ir_inflight r) 0 0 0
+         (if ir_ready r then Some (Ev 0 [] 0) else None)
+         (map (fun i => (100 + N.of_nat i, Ev (100 + N.of_nat i) [] 0)) (seq 0 (N.to_nat (ir_completed r))))).
+
+Definition idle_mismatch (r : idle_row) : bool :=
+  negb (Bool.eqb (ir_expired r) (idleExpired (row_writer r) (ir_now r) (ir_retention r))).
+
+(* the property the ordering clause relies on: a writer that still owns admitted,
+   unfinished sends is never reclaimable (the channel keeps its single writer) *)
+Definition idle_row_ok (r : idle_row) : bool :=
+  if has_work (row_writer r) then negb (ir_expired r) else true.
+
 (* ---- the case record ---------------------------------------------------------------------------- *)
 
 Inductive c29_case :=
@@ -511,7 +533,8 @@ Inductive c29_case :=
 | C29Writer (hw limit : Z) (ops : list wop) (obs : list wobs)
 | C29Effect (af : list afault) (lf : list lfault) (ops : list (list psend)) (obs : list eobs)
             (plog : list prec) (dump : list prec)
-| C29Hist (ordered : bool) (calls : list hcall) (sends : list hsend) (logs : list (N * list prec)).
+| C29Hist (ordered : bool) (calls : list hcall) (sends : list hsend) (logs : list (N * list prec))
+| C29Idle (rows : list idle_row).
 
 Definition untag (p : prec) : prec := PRec (pr_seq p) (pr_id p) 0 (pr_cmd p).
 
@@ -525,6 +548,7 @@ Definition C29_mismatch (c : c29_case) : bool :=
       negb (list_eqb eobs_eqb obs mobs && list_eqb prec_eqb plog (ss_log s)
             && list_eqb prec_eqb dump (map untag (ss_log s)))
   | C29Hist _ _ _ logs => negb (forallb (fun p => log_contract (snd p)) logs)
+  | C29Idle rows => existsb idle_mismatch rows
   end.
 
 Definition C29_monitor (c : c29_case) : N :=
@@ -533,4 +557,5 @@ Definition C29_monitor (c : c29_case) : N :=
   | C29Writer _ _ ops obs => if writer_monitor ops obs then 0 else 1
   | C29Effect _ _ ops obs plog _ => hist_monitor (effect_hist ops obs plog)
   | C29Hist ordered calls sends logs => hist_monitor (Hist ordered calls sends logs)
+  | C29Idle rows => if forallb idle_row_ok rows then 0 else 1
   end.
